@@ -37,7 +37,11 @@ def cases(draw):
             "script": script, "calls": draw(st.lists(st.integers(1, 5), min_size=1, max_size=4)),
             "seed": draw(st.integers(0, 1000)),
             # with a saving folder: carry on from the checkpoint (a restored calibrator) before some of the calls
-            "restore_before": draw(st.lists(st.integers(1, 3), max_size=2, unique=True))}
+            "restore_before": draw(st.lists(st.integers(1, 3), max_size=2, unique=True)),
+            # mostly one uniform sampler; sometimes a line-up with history-driven samplers (they read the loss history the
+            # stopping rule is evaluated on)
+            "lineup": draw(st.one_of(st.none(), st.none(), gen.lineup_spec(kinds=["uniform", "halton", "rseq", "best", "cors", "pso"],
+                                                                          min_len=2, max_len=3, max_bs=3)))}
 
 
 def verdict(m, p):
@@ -51,10 +55,14 @@ def verdict(m, p):
     return "either"
 
 
+def lineup_of(case):
+    return case.get("lineup") or [{"kind": "uniform", "bs": case["bs"], "seed": 0}]
+
+
 def run_one(case, verbose, folder):
     from black_it.calibrator import Calibrator
 
-    cfg = {"space": gen.UNIT, "lineup": [{"kind": "uniform", "bs": case["bs"], "seed": 0}],
+    cfg = {"space": gen.UNIT, "lineup": lineup_of(case),
            "loss": None, "model": "poly", "D": 1, "N": 4, "E": 1, "seed": case["seed"], "real": "zeros"}
     cal = calib.build(cfg, loss=ScriptedLoss(case["script"]), verbose=verbose, saving_folder=folder,
                       convergence_precision=case["p"])
@@ -72,7 +80,8 @@ def check_stop(ctx: Ctx, case):
     from black_it.calibrator import Calibrator
 
     sub = "early_stop"
-    p, bs, script = case["p"], case["bs"], case["script"]
+    p, script = case["p"], case["script"]
+    sizes = [s_["bs"] for s_ in lineup_of(case)]
     # reference model
     exp, amb, k, batch, stopped_early, later = [], False, 0, 0, False, False
     running = None
@@ -81,6 +90,8 @@ def check_stop(ctx: Ctx, case):
         if running is not None and p is not None and verdict(running, p) == "stop":
             later = True
         for _ in range(n):
+            bs = sizes[batch % len(sizes)]
+            batch += 1
             vals = [script[(k + i) % len(script)] for i in range(bs)]
             k += bs
             ran += 1
@@ -98,6 +109,7 @@ def check_stop(ctx: Ctx, case):
     ctx.count(sub, case, (stopped_early or later) and not amb, [f"p={'None' if p is None else ('0-4' if p <= 4 else '5-12')}",
                                                                   "verbose" if case["verbose"] else "quiet",
                                                                   "folder" if case["folder"] else "nofolder"] +
+              (["line-up:" + "+".join(sorted({s_["kind"] for s_ in lineup_of(case)}))] if case.get("lineup") else []) +
               (["restored-between-calls"] if case["folder"] and case.get("restore_before") else []))
     if amb:
         ctx.exclude("running minimum within 1e-12 (relative) of the rounding boundary")
@@ -119,7 +131,8 @@ def check_stop(ctx: Ctx, case):
         tot = 0
         for (ran, cbi, nsp, nl), e in zip(trace, exp):
             tot += e
-            if cbi != tot or nsp != tot * bs or nl != tot * bs:
+            rows = sum(sizes[b % len(sizes)] for b in range(tot))
+            if cbi != tot or nsp != rows or nl != rows:
                 ctx.fail("C14/counters", f"after {tot} batches: current_batch_index={cbi}, n_sampled_params={nsp}, history "
                          f"length {nl}", sub, case)
                 return
@@ -152,6 +165,7 @@ def after_fault_cases(draw):
     c = draw(cases())
     c["p"] = draw(st.integers(0, 6))
     c["folder"], c["restore_before"] = False, []
+    c["lineup"] = None
     c["fail_at"] = draw(st.integers(0, 3))
     c["calls"] = [draw(st.integers(1, 4))] + draw(st.lists(st.integers(1, 5), min_size=1, max_size=3))
     return c
